@@ -112,6 +112,12 @@ def gen_consts():
         small = real
     fnv = parse_rust_consts(cfg_path, ["FNV_OFFSET", "FNV_PRIME"])
     client = parse_rust_consts(os.path.join(REPO, "distributed-walrus/src/client.rs"), ["MAX_FRAME_LEN"])
+    # the small-entry threshold literal used by the read planner (three sites, must agree)
+    rsrc = open(os.path.join(REPO, "src/wal/runtime/walrus_read.rs")).read()
+    lits = set(re.findall(r"(?:size1|data_size)\s*<\s*(\d+)", rsrc))
+    if len(lits) != 1:
+        raise RuntimeError("small-entry threshold literal not unique in walrus_read.rs: %r" % (lits,))
+    fnv["SMALL_ENTRY"] = int(lits.pop())
     lines = ["(* GENERATED by vlib/common.py:gen_consts from /repo sources — do not edit. *)",
              "From Coq Require Import NArith.", "Open Scope N_scope.", ""]
     for k, v in real.items():
